@@ -217,25 +217,32 @@ void judge(vf::Ctx &c, const char *family, const std::string &in, int which_ctx)
   if (in.size() < 40 && which_ctx == 0) c.sample("Extract('" + vfq::printable(in) + "') => " + show(got) + (same ? " (caller's context returned)" : ""));
 }
 
+// A pick with many alternatives, split in two levels of at most 64: the core hands the alternatives
+// of a position to other workers through a bounded queue, and a position with thousands of
+// alternatives overflows it (harmless, but some inputs are then executed twice and the execution
+// count varies from run to run).
+size_t wide_pick(vf::Ctx &c, const char *hi_label, const char *lo_label, size_t n) {
+  const size_t W = 64;
+  size_t hi = (size_t)c.pick(hi_label, (int)((n + W - 1) / W));
+  size_t lo = (size_t)c.pick(lo_label, (int)std::min(W, n - hi * W));
+  return hi * W + lo;
+}
+
 void run(vf::Ctx &c) {
   int nf = (int)g_fam.size() + 1;
   int fi = c.pick("family", nf);
   if (fi < (int)g_fam.size()) {
     const Family &f = g_fam[fi];
-    size_t n = f.inputs.size();
-    // picks are limited to 60000 alternatives: two levels
-    int hi = c.pick("block", (int)((n + 9999) / 10000));
-    size_t lo_n = std::min<size_t>(10000, n - (size_t)hi * 10000);
-    int lo = c.pick("input", (int)lo_n);
+    size_t idx = wide_pick(c, "block", "input", f.inputs.size());
     int which_ctx = c.pick("ctx", 2);
-    judge(c, f.name, f.inputs[(size_t)hi * 10000 + lo], which_ctx);
+    judge(c, f.name, f.inputs[idx], which_ctx);
   } else {
     // double mutations: first mutation over the full class set, second over the reduced one
     const std::string &seed = g_seeds2[c.pick("seed", (int)g_seeds2.size())];
     std::vector<std::string> m1 = vfq::mutations(seed, g_classes1);
-    const std::string &a = m1[c.pick("m1", (int)m1.size())];
+    const std::string &a = m1[wide_pick(c, "m1-block", "m1", m1.size())];
     std::vector<std::string> m2 = vfq::mutations(a, g_classes2);
-    const std::string &b = m2[c.pick("m2", (int)m2.size())];
+    const std::string &b = m2[wide_pick(c, "m2-block", "m2", m2.size())];
     judge(c, "mut2", b, 0);
   }
 }
